@@ -1,6 +1,7 @@
 import Toq.Driver.QJson
 import Toq.Model.Discrim
 import Toq.Model.DiscrimArgs
+import Toq.Model.DiscrimCall
 /-! Driver front end for C10 (state discrimination certificate checkers).
 
 Ops (matrices in the `QJson` dyadic encoding, rationals as `[num, den]` or an integer):
@@ -12,6 +13,9 @@ Ops (matrices in the `QJson` dyadic encoding, rationals as `[num, den]` or an in
 * `sd_front {"shapes":[[n]|[r,c]…],"p":[rat…]|null,"strategy":str|null,"primal_dual":str|null}` – the lines of
   `state_distinguishability` before the worker call (`null` = argument omitted): `{"reject":"ValueError"}` or
   `{"n","dim","p","form"}`
+* `sd_front_call {"shapes":…,"p":…,"pos":[str…],"kw":[[name,value]…]}` – the same behind Python's binding of the options
+  given by position (`pos`, after `vectors, probs`) and by keyword (`kw`): `{"reject":"TypeError"}`,
+  `{"reject":"ValueError"}` or `{"n","dim","p","form","solver","strategy","primal_dual"}` (the bound options)
 * `sd_program {"d","states":[{"vec":mat}|{"dm":mat}…],"p":[rat…]|null,"form":"me_primal"|"me_dual"|"ua_primal"|"ua_dual", point…}`
   – the program built for the raw arguments, evaluated at a point (see `hProgram`)
 * `sd_post {"v":rat}` – `is_distinguishable`'s test on the solver value
@@ -151,6 +155,24 @@ def hFront : Handler := fun j => do
       ("p", Json.arr (f.probs.map ratJson).toArray), ("form", Json.str f.form.name),
       ("solver", Json.str sdDefaultSolver)]
 
+/-- `sd_front_call`: `sdFrontCall` – the binding of positional / keyword options, then `sdFront` -/
+def hFrontCall : Handler := fun j => do
+  let shapes ← (← (← j.getObjVal? "shapes").getArr?).toList.mapM parseShape
+  let probs ← if isNull j "p" then pure none else (some <$> getRatList j "p")
+  let pos ← (← (← j.getObjVal? "pos").getArr?).toList.mapM fun x => x.getStr?
+  let kw ← (← (← j.getObjVal? "kw").getArr?).toList.mapM fun x => do
+    match (← x.getArr?).toList with
+    | [a, b] => return ((← a.getStr?), (← b.getStr?))
+    | _ => throw "kw: expected [name, value]"
+  match sdFrontCall shapes probs pos kw with
+  | .typeError => return reject "TypeError"
+  | .valueError => return reject "ValueError"
+  | .built f solver =>
+    let o := (sdBind pos kw).getD ⟨"", "", ""⟩
+    return Json.mkObj [("n", Json.num f.n), ("dim", Json.num f.dim),
+      ("p", Json.arr (f.probs.map ratJson).toArray), ("form", Json.str f.form.name),
+      ("solver", Json.str solver), ("strategy", Json.str o.strategy), ("primal_dual", Json.str o.primalDual)]
+
 def parseSdState (d : Nat) (j : Json) : Except String (SdState d) := do
   match j.getObjVal? "vec" with
   | .ok v => return .vec (← parseEMat d 1 v)
@@ -230,6 +252,6 @@ def hPost : Handler := fun j => do
 def handlers : List (String × Handler) :=
   [("minerr_primal", hMinErrPrimal), ("minerr_dual", hMinErrDual),
    ("unamb_primal", hUnambPrimal), ("unamb_dual", hUnambDual),
-   ("sd_front", hFront), ("sd_program", hProgram), ("sd_post", hPost)]
+   ("sd_front", hFront), ("sd_front_call", hFrontCall), ("sd_program", hProgram), ("sd_post", hPost)]
 
 end Toq.Driver.C10
